@@ -101,6 +101,15 @@ RefineList(kl, ord, useSym) ==
    LET kl1 == DivideAll(kl, ord, 1, useSym)
    IN IF useSym THEN Excl(kl1, Len(kl), Len(kl) + 1) ELSE kl1
 
+(* Comparison of K lists up to what the properties leave free: the order of the points and, with symmetry, which member
+   of an orbit represents it.  CanonCell picks the member of the star with the smallest key; CanonBag is the bag of
+   <<canonical cell, level, weight, evaluated>> of a list. *)
+CellKey(c)            == c[1] * U + c[2]
+CanonCell(c, useSym)  == IF useSym THEN CHOOSE x \in Star(c) : \A y \in Star(c) : CellKey(x) <= CellKey(y) ELSE c
+CanonSeq(k, useSym)   == [i \in 1..Len(k) |-> <<CanonCell(k[i].c, useSym), k[i].lev, k[i].fac, k[i].ev>>]
+CanonBag(k, useSym)   == LET s == CanonSeq(k, useSym)
+                         IN [x \in {s[i] : i \in 1..Len(s)} |-> Cardinality({i \in 1..Len(s) : s[i] = x})]
+
 -----------------------------------------------------------------------------
 VARIABLES
   (* the directory file_Klist_path and the result files *)
@@ -139,16 +148,18 @@ Init ==
 ResetP == sel' = <<>> /\ done' = {} /\ old' = {} /\ ncalc' = 0 /\ ready' = {} /\ toCollect' = {} /\ collected' = <<>>
 
 (* run(restart=False): dump_results implies allow_restart; the directory is removed and re-created *)
-StartFresh(m, n_it) ==
+(* StartFreshL: the same with the initial K list given (trace validation adopts the list of the implementation after
+   comparing it with InitList up to order and choice of representatives) *)
+StartFreshL(m, n_it, k0) ==
   /\ pc = "idle" /\ ~m.restart /\ (m.dump => m.allow)
-  /\ LET k0 == InitList(m.sym) IN
-       /\ kl' = k0 /\ facs' = Facs(k0)
-       /\ IF m.allow THEN ffiles' = (0 :> Facs(k0)) /\ pick' = <<>> ELSE UNCHANGED <<ffiles, pick>>
+  /\ kl' = k0 /\ facs' = Facs(k0)
+  /\ IF m.allow THEN ffiles' = (0 :> Facs(k0)) /\ pick' = <<>> ELSE UNCHANGED <<ffiles, pick>>
   /\ mode' = m /\ nit' = n_it /\ start' = 0 /\ nkprev' = 0 /\ it' = 0
   /\ coef' = <<>> /\ resNone' = TRUE /\ rsum' = <<>> /\ rsNone' = TRUE
   /\ pc' = "process" /\ ResetP
   /\ act' = [name |-> "StartFresh", mode |-> m, nit |-> n_it]
   /\ UNCHANGED <<saved, returned>>
+StartFresh(m, n_it) == StartFreshL(m, n_it, InitList(m.sym))
 
 (* read_factors(file_Klist_path, iter): the iteration whose factors file is used.
    iter >= 0: that file (it must exist).  iter < 0: counted from the latest iteration on disk (-1 = latest), clipped
@@ -278,25 +289,29 @@ UpdateIntegral ==
   /\ act' = [name |-> "UpdateIntegral"]
   /\ UNCHANGED <<pick, saved, mode, kl, it, start, nit, nkprev, rsum, rsNone, returned, plocal>>
 
-SaveData ==
+(* SaveDataG(skip): run() does not write result files in iteration 0 of a restarted run (skip = mode.restart /\ it = 0) *)
+SaveDataG(skip) ==
   /\ pc = "save"
-  /\ IF mode.restart /\ it = 0 THEN UNCHANGED saved
+  /\ IF skip THEN UNCHANGED saved
      ELSE saved' = (it + start :> CoefSet(kl, coef)) @@ saved
   /\ pc' = IF it >= nit THEN "return" ELSE "refine"
   /\ act' = [name |-> "SaveData", iter |-> it + start]
   /\ UNCHANGED <<ffiles, pick, mode, kl, coef, resNone, facs, it, start, nit, nkprev, rsum, rsNone, returned, plocal>>
+SaveData == SaveDataG(mode.restart /\ it = 0)
 
 (* select_points and the division loop; ord is the order in which run() iterates over the selected indices *)
 IsOrder(ord) == /\ Len(ord) >= 1
                 /\ \A i \in 1..Len(ord) : ord[i] \in 1..Len(kl) /\ kl[ord[i]].ev /\ kl[ord[i]].lev < LMAX
                 /\ \A i, j \in 1..Len(ord) : i # j => ord[i] # ord[j]
-Refine(ord) ==
-  /\ pc = "refine" /\ IsOrder(ord)
+(* RefineL: the same with the refined list given (trace validation, see StartFreshL) *)
+RefineL(ord, newkl) ==
+  /\ pc = "refine"
   /\ nkprev' = Len(kl)
-  /\ kl' = RefineList(kl, ord, mode.sym)
+  /\ kl' = newkl
   /\ it' = it + 1 /\ pc' = "process"
   /\ act' = [name |-> "Refine", ord |-> ord, cells |-> [i \in 1..Len(ord) |-> <<kl[ord[i]].c, kl[ord[i]].lev>>]]
   /\ UNCHANGED <<disk, mode, coef, resNone, facs, start, nit, rsum, rsNone, returned, plocal>>
+Refine(ord) == IsOrder(ord) /\ RefineL(ord, RefineList(kl, ord, mode.sym))
 
 Return ==
   /\ pc = "return"
